@@ -224,6 +224,7 @@ func (g *G) stmt(c *gctx) []*N {
 		add(7, func() []*N { return []*N{g.deferStmt(c)} })
 		if !deep {
 			add(2, func() []*N { return g.deferRebind(c) })
+			add(2, func() []*N { return g.deferAfterReturnedSlot(c) })
 		}
 		if !deep && P.HostChan {
 			add(4, func() []*N { return []*N{g.callbackStmt(c)} })
@@ -898,6 +899,50 @@ func (g *G) deferStmt(c *gctx) *N {
 		return &N{K: "defer", Ns: []*N{{K: "acall", Ns: []*N{{K: "fn", Ss: [][]*N{body}}}}}}
 	default:
 		return &N{K: "defer", Ns: []*N{{K: "pfail", I: g.id()}}}
+	}
+}
+
+// deferAfterReturnedSlot: a function returns an element of a list (or the value of a plain variable) and
+// a deferred closure assigns to that element / variable afterwards: deferred calls do not alter the
+// invocation's result. Third form: the body fails by a host panic, a deferred closure fails too.
+func (g *G) deferAfterReturnedSlot(c *gctx) []*N {
+	g.nextFn++
+	fn := fmt.Sprintf("dr%d", g.nextFn)
+	v1, v2 := g.val(), g.val()
+	var body []*N
+	switch g.n(0, 2, "drform") {
+	case 0:
+		g.feat("deferred_call_assigns_the_returned_list_element")
+		body = []*N{
+			{K: "let", Ps: []string{"la"}, Ns: []*N{{K: "list", Ns: []*N{v1, g.val()}}}},
+			{K: "defer", Ns: []*N{{K: "acall", Ns: []*N{{K: "fn", Ss: [][]*N{{{K: "letidx", Ns: []*N{Id("la"), Int(0), v2}}, {K: "expr", Ns: []*N{P1(g.id(), &N{K: "idx", Ns: []*N{Id("la"), Int(0)}})}}, {K: "ret"}}}}}}}},
+			{K: "ret", Ns: []*N{{K: "idx", Ns: []*N{Id("la"), Int(0)}}}},
+		}
+	case 1:
+		g.feat("deferred_call_assigns_the_returned_variable")
+		body = []*N{
+			{K: "var", Ps: []string{"lv"}, Ns: []*N{v1}},
+			{K: "defer", Ns: []*N{{K: "acall", Ns: []*N{{K: "fn", Ss: [][]*N{{{K: "let", Ps: []string{"lv"}, Ns: []*N{v2}}, {K: "expr", Ns: []*N{P1(g.id(), Id("lv"))}}, {K: "ret"}}}}}}}},
+			{K: "ret", Ns: []*N{Id("lv")}},
+		}
+	default:
+		// the body fails by a panic of a host function at its own level (not an error coming out of a nested
+		// script call) and a deferred closure fails too, with another text: the body's error is the one that
+		// surfaces
+		g.feat("body_fails_by_host_panic_and_deferred_call_fails_too")
+		body = []*N{
+			{K: "defer", Ns: []*N{{K: "acall", Ns: []*N{{K: "fn", Ss: [][]*N{{{K: "expr", Ns: []*N{P(g.id())}}, {K: "throw", Ns: []*N{Str(fmt.Sprintf("D%d", g.id()))}}}}}}}}},
+			{K: "expr", Ns: []*N{{K: "pfail", I: g.id()}}},
+			{K: "ret", Ns: []*N{v1}},
+		}
+		return []*N{
+			{K: "expr", Ns: []*N{{K: "fn", S: fn, Ss: [][]*N{body}}}},
+			{K: "try", S: "e", Ss: [][]*N{{{K: "expr", Ns: []*N{P1(g.id(), Call(fn))}}}, {{K: "expr", Ns: []*N{P1(g.id(), Id("e"))}}}}},
+		}
+	}
+	return []*N{
+		{K: "expr", Ns: []*N{{K: "fn", S: fn, Ss: [][]*N{body}}}},
+		{K: "expr", Ns: []*N{P1(g.id(), Call(fn))}},
 	}
 }
 
